@@ -20,6 +20,7 @@ type Clause struct {
 	// (it must apply at one return at least)
 	WhereDefined bool
 	sites        int
+	Assumed      bool // summary: assumed by callers, not verified in the body
 	Loc          string // assertat: substring of the source line
 	Nth          int    // assertat: which matching line of the function (1-based; 0 = every one)
 	skipped      string
@@ -122,7 +123,7 @@ func newContracts() *Contracts {
 	return &Contracts{Funcs: map[string]*FuncContract{}, Specs: map[string]*SpecFunc{}, Decls: map[string][]string{}}
 }
 
-var keywordRe = regexp.MustCompile(`^(func|requires|ensures_on_panic|ensures|assertat|checkif|check|functional|closeonce|callpreif|callpre|dyncall|ghost|atunlock|sendpre|nomonitor|unknowncalls|literals|modifies|pure|trusted|strict|mathint|maypanic|nobody|loop|param|spec|axiom|lemma|monitor|allocbound|decl)\b`)
+var keywordRe = regexp.MustCompile(`^(func|requires|ensures_on_panic|ensures|summary|assertat|checkif|check|functional|closeonce|callpreif|callpre|dyncall|ghost|atunlock|sendpre|nomonitor|unknowncalls|literals|modifies|pure|trusted|strict|mathint|maypanic|nobody|loop|param|spec|axiom|lemma|monitor|allocbound|decl)\b`)
 
 // preprocess rewrites `A ==> B` into implies(A, B) (lowest precedence within its paren group)
 // and `A <==> B` into iff(A, B).
@@ -282,7 +283,7 @@ func (cs *Contracts) parseContractFile(path string, content []byte, pkgName stri
 				cur = &FuncContract{Key: key, PkgName: pkgName, Loops: map[int]*LoopContract{}, Params: map[string]*ParamContract{}, File: path, Line: it.line}
 				cs.Funcs[key] = cur
 			}
-		case "requires", "ensures", "ensures_on_panic":
+		case "requires", "ensures", "ensures_on_panic", "summary":
 			if cur == nil {
 				fail(it.line, "%s outside func", kw)
 				continue
@@ -295,6 +296,11 @@ func (cs *Contracts) parseContractFile(path string, content []byte, pkgName stri
 			case "requires":
 				cur.Requires = append(cur.Requires, c)
 			case "ensures":
+				cur.Ensures = append(cur.Ensures, c)
+			case "summary":
+				// a postcondition callers may assume although the body is not checked against it (an assumption, listed
+				// in the evidence); everything else in the contract is verified as usual
+				c.Assumed = true
 				cur.Ensures = append(cur.Ensures, c)
 			default:
 				cur.EnsuresP = append(cur.EnsuresP, c)
